@@ -13,7 +13,7 @@ from vf.simloop import Chooser
 
 PID = "C05"
 TREE = {"d": {"f": b"0123456789"}, "g": b"xyz"}
-USERS = [M.UserSpec(None), M.UserSpec("bob", "pw", home="/d")]
+USERS = [M.UserSpec(None), M.UserSpec("bob", "pw", home="/d", maxconn=1)]     # bob may have one connection: this one
 
 ALPHABET = [
     "USER anonymous", "USER bob", "PASS pw", "PASS bad", "PWD", "SYST", "TYPE I", "TYPE A", "TYPE X", "TYPE",
@@ -31,6 +31,7 @@ ALPHABET = [
     "REST 2", "REST 0", "REST", "REST x", "REST 3abc", "REST ²", "REST ٣", "REST -1", "REST  2", "REST 20",
     "ABOR", "FOO", "", "NOOP x", "QUIT",
 ]
+LOGINS = ["USER anonymous", "USER bob", "PASS pw", "PASS bad", "PWD", "USER nobody"]
 REDUCED = ["PWD", "CWD d", "CDUP", "MKD m", "RNFR g", "RNTO h", "PASV", "@data", "LIST", "RETR g", "RETR d/f",
            "STOR n", "APPE g", "REST 2", "REST x", "FOO", "USER bob", "PASS pw", "DELE g"]
 
@@ -131,6 +132,17 @@ def rest_scope_histories():
     return out
 
 
+def late_histories():
+    """a transfer verb sent before its data connection exists, any harmless command in between, then the connection"""
+    from vf.conform import LATE_MID
+    out = []
+    for pre in ([], ["CWD d"], ["REST 2"], ["CWD d", "REST 2"]):
+        for v in ["RETR g", "RETR f", "RETR d/f", "STOR n", "STOR f", "APPE g", "APPE f", "LIST", "LIST d", "MLSD", "RETR /g"]:
+            for m in LATE_MID:
+                out.append(["USER anonymous", "EPSV"] + pre + [f"LATE:{v}|{m}", "PWD", "@data", "RETR g"])
+    return out
+
+
 def run(tier, seed, t0):
     parts = []
     if tier == "quick":
@@ -141,7 +153,12 @@ def run(tier, seed, t0):
         parts.append(sweep("memory", ["USER anonymous", "EPSV", "@data", "REST 2"], ALPHABET, 1))
         parts.append(sweep("memory", ["USER anonymous", "EPSV", "@data", "REST 2"], REDUCED, 3))
         parts.append(sweep_hist("memory", rest_scope_histories(), "rest-scope"))
+        parts.append(sweep("memory", [], LOGINS, 4))       # every login history of length 4 (a limited user re-logging in)
+        parts.append(sweep_hist("memory", late_histories(), "late-data"))
     else:
+        parts.append(sweep_hist("memory", late_histories(), "late-data"))
+        parts.append(sweep_hist("pathio", late_histories(), "late-data"))
+        parts.append(sweep("memory", [], LOGINS, 5))
         parts.append(sweep_hist("memory", rest_scope_histories(), "rest-scope"))
         parts.append(sweep_hist("pathio", rest_scope_histories(), "rest-scope"))
         parts.append(bfs("memory", 5, 400000))
